@@ -44,6 +44,29 @@ def quiet(fn, *a, **k):
         return fn(*a, **k)
 
 
+LAYOUTS = ['C', 'F', 'T', 'neg', 'slice', 'Fslice']
+
+
+def relayout(a, kind):
+    """The same values and shape in another memory layout: C-contiguous; Fortran-contiguous copy; the .T
+    view of an (N, M) C array; negative strides on both axes; a non-contiguous slice of a larger C array
+    (the gaps hold 777); the same slice of a larger Fortran array."""
+    a = np.array(a, dtype=float, order='C')
+    M, N = a.shape
+    if kind == 'C':
+        return a
+    if kind == 'F':
+        return np.asfortranarray(a)
+    if kind == 'T':
+        return np.ascontiguousarray(a.T).T
+    if kind == 'neg':
+        return np.ascontiguousarray(a[::-1, ::-1])[::-1, ::-1]
+    big = np.full((2 * M + 1, 3 * N), 777.0, order='C' if kind == 'slice' else 'F')
+    view = big[1::2, 1::3]
+    view[...] = a
+    return view
+
+
 def coq_ok(vals):
     return bool(vals) and (vals[0].startswith('(0%nat, [])') or vals[0].startswith('(0, [])'))
 
@@ -104,7 +127,7 @@ def corr_btwb(ctx, nrng):
         for kind in (0, 1):
             Br = nrng.integers(-3, 4, (M, a)).astype(float)
             Bc = nrng.integers(-3, 4, (N, c)).astype(float)
-            W = nrng.integers(0, 4, (M, N)).astype(float)
+            W = relayout(nrng.integers(0, 4, (M, N)).astype(float), LAYOUTS[(idx + kind) % len(LAYOUTS)])
             try:
                 F = rows(impl_btwb(kind, Br, W, Bc))
             except Exception as exc:  # noqa
@@ -216,6 +239,8 @@ def corr_system(ctx, nrng):
             W = nrng.integers(0, 4, (M, N)).astype(float)
         Y = nrng.integers(-5, 6, (M, N)).astype(float)
         extra = nrng.integers(-4, 5, a * c).astype(float) if (k // 4) % 2 else None
+        lay_w, lay_y = LAYOUTS[k % len(LAYOUTS)], LAYOUTS[(k // len(LAYOUTS)) % len(LAYOUTS)]
+        W, Y = relayout(W, lay_w), relayout(Y, lay_y)
         log = []
         try:
             with patched_eigen(salt, log), warnings.catch_warnings():
@@ -224,8 +249,8 @@ def corr_system(ctx, nrng):
                 pen = as_int(ws.penalty)
                 lens = (len(ws.penalty_rows), len(ws.penalty_columns))
                 nb = tuple(int(v) for v in ws._num_bases)
-                out = as_int(ws.solve(Y.copy(), W.copy(), rhs_extra=None if extra is None else extra.copy()))
-                ws._calc_dof(W.copy())
+                out = as_int(ws.solve(Y, W, rhs_extra=None if extra is None else extra.copy()))
+                ws._calc_dof(W)
                 lr2, lc2 = lr * int(2 ** nrng.integers(0, 4)), lc * int(2 ** nrng.integers(0, 4))
                 ws.update_penalty((lr2, lc2))
                 pen2 = as_int(ws.penalty)
@@ -580,6 +605,8 @@ def oracle_whittaker(ctx, nrng, budget):
         if not np.isfinite(cond) or cond > 1e11:
             continue      # numerically singular full system: nothing can be compared
         tol = (1e4 * eps * cond + 1e-9) * scale
+        case['layout_y'], case['layout_w'] = LAYOUTS[k % len(LAYOUTS)], LAYOUTS[(k // len(LAYOUTS)) % len(LAYOUTS)]
+        y, w = relayout(y, case['layout_y']), relayout(w, case['layout_w'])
         try:
             direct, _ = call_method(b, method, y, lam, d, w, None)
         except Exception as exc:  # noqa
@@ -647,6 +674,92 @@ def oracle_whittaker(ctx, nrng, budget):
                 if not e_d <= dtol:
                     ctx.fail(f'whittaker:dof:{method}', f'{method}: params[\'dof\'] differs from diag((U\'WU+L)^-1 U\'WU) (entries outside the null '
                                                         f'blocks and the total) by {e_d:.3e} (num_eigens=({kr},{kc}))', case_t)
+    return worst
+
+
+LAYOUT_GRIDS = [(7, 9, (2, 1), (3.0, 0.7)), (6, 6, (2, 2), (20.0, 5.0)), (5, 8, (1, 3), (0.5, 40.0))]
+WHIT_DIRECT_ONLY = ['iasls', 'drpls', 'aspls']
+
+
+def call_direct(b, method, y, lam, d, w, num_eigens='absent'):
+    kw = dict(lam=lam, diff_order=d, weights=w, max_iter=0)
+    if method == 'brpls':
+        kw['max_iter_2'] = 0
+    if num_eigens != 'absent':
+        kw['num_eigens'] = num_eigens
+    return quiet(getattr(b, method), y, **kw)[0]
+
+
+def check_layout(case):
+    """Same values, another memory layout of data / weights: the direct (full Kronecker) solution and the
+    all-eigenvector solution must both equal the C-contiguous direct solution; that one is anchored to an
+    independent dense solve where the method's single solve is the plain system.  Returns (error, tolerance, what)."""
+    from pybaselines import Baseline2D
+    eps = np.finfo(float).eps
+    y, M, N = np.array(case['y'], dtype=float), case['M'], case['N']
+    w = None if case['weights'] is None else np.array(case['weights'], dtype=float)
+    d, lam, method = tuple(case['diff_order']), tuple(case['lam']), case['method']
+    b = Baseline2D(np.arange(M, dtype=float), np.arange(N, dtype=float))
+    wref = np.ones((M, N)) if w is None else w
+    ref, cond, _ = dense_reference(y, wref, lam, d)
+    tol = (1e4 * eps * cond + 1e-9) * np.abs(y).max()
+    eig = method in WHIT_EIGEN
+    base = call_direct(b, method, y, lam, d, w, *((None,) if eig else ()))
+    worst, what = 0.0, ''
+    if eig and w is not None:
+        e = np.abs(base - ref).max()
+        if e > worst:
+            worst, what = e, 'C-contiguous direct solve vs the dense Kronecker solve'
+    yl = relayout(y, case['layout_y'])
+    wl = None if w is None else relayout(w, case['layout_w'])
+    y0, w0 = yl.copy(), (None if wl is None else wl.copy())
+    got = call_direct(b, method, yl, lam, d, wl, *((None,) if eig else ()))
+    e = np.abs(got - base).max() if got.shape == base.shape else np.inf
+    if e > worst:
+        worst, what = e, f'direct solve with data layout {case["layout_y"]!r} / weights layout {case["layout_w"]!r} vs C-contiguous inputs'
+    if eig:
+        full = call_direct(b, method, yl, lam, d, wl, (M, N))
+        e = np.abs(full - base).max() if full.shape == base.shape else np.inf
+        if e > worst:
+            worst, what = e, (f'all eigenvectors with data layout {case["layout_y"]!r} / weights layout {case["layout_w"]!r} vs the '
+                              f'C-contiguous direct solve')
+    if not np.array_equal(yl, y0) or (wl is not None and not np.array_equal(wl, w0)):
+        worst, what = np.inf, 'the call modified its inputs'
+    return worst, tol, what
+
+
+def oracle_layouts(ctx, nrng, budget):
+    """FIXED enumerated grid (independent of the seed): every 2-D Whittaker method x memory layouts of data and
+    of weights (incl. weights=None) on three small grids with x/z that need no sorting."""
+    frng = np.random.default_rng(20260)
+    worst = 0.0
+    grids = LAYOUT_GRIDS if (ctx.tier == 'thorough' or budget > 1) else LAYOUT_GRIDS[:2]
+    for (M, N, d, lam) in grids:
+        y = gen_surface(frng, M, N)
+        wts = frng.uniform(0.1, 1.0, (M, N))
+        for method in WHIT_EIGEN + WHIT_DIRECT_ONLY:
+            if method in ('iasls', 'drpls') and min(d) < 2:
+                continue          # these methods require diff_order >= 2
+            pairs = [(ly, lw) for ly in LAYOUTS for lw in LAYOUTS] + [(ly, None) for ly in LAYOUTS]
+            if ctx.tier != 'thorough' and budget == 1 and method not in ('asls', 'arpls', 'iasls', 'aspls'):
+                # quick: all 36 + 6 combinations for four hosts, the F-type / strided diagonal for the rest
+                pairs = [(ly, lw) for ly, lw in pairs if lw is None or ly == lw or 'C' in (ly, lw)]
+            for ly, lw in pairs:
+                case = {'kind': 'layout', 'method': method, 'M': M, 'N': N, 'diff_order': list(d), 'lam': list(lam),
+                        'y': y.tolist(), 'weights': None if lw is None else wts.tolist(), 'layout_y': ly, 'layout_w': lw}
+                ctx.case(('layout', method, M, N, d, ly, lw), nontrivial=(ly != 'C' or lw not in ('C', None)),
+                         kind=f'oracle:layouts:{method}:data={ly}')
+                try:
+                    err, tol, what = check_layout(case)
+                except Exception as exc:  # noqa
+                    ctx.fail(f'layout:{method}:raises', f'{method} (max_iter=0) raised {type(exc).__name__}: {exc} with data layout {ly!r}, '
+                                                        f'weights layout {lw!r} on a {M}x{N} grid', case)
+                    continue
+                worst = max(worst, err / tol)
+                if not err <= tol:
+                    ctx.fail(f'layout:{method}:data={"C" if ly == "C" else "nonC"}:weights={"C" if lw in ("C", None) else "nonC"}',
+                             f'{method} (max_iter=0) on a {M}x{N} grid, diff_order={d}: {what} differ by {err:.3e} (tolerance {tol:.1e}); '
+                             f'the same values in another memory layout must give the same full-Kronecker / all-eigenvector solution', case)
     return worst
 
 
@@ -861,7 +974,7 @@ def run(ctx):
                 'diff_order 1-3, num_eigens 1..size, square re-use branch forced every 10th case, weights random / uniform 2 or 3 / uniform 1, rhs_extra None and not None); individual_axes with an integer '
                 'position-sensitive stand-in method on sorted/permuted integer axes; float oracle on 2-D Whittaker methods with '
                 'max_iter=0 (sides from diff_order+2, per-axis lam/diff_order/num_eigens, 9 weight patterns: constant 0.01/0.25/1/7, near-constant 1+-1e-12, random, two-level, zero row+column, row/column structured), P-spline B\'WB and solve, '
-                'individual_axes with 6 real methods; distinct = distinct canonical input; non-trivial as flagged per case kind')
+                'individual_axes with 6 real methods; memory layouts (C, Fortran copy, .T view, negative strides, non-contiguous C and F slices) of data and weights: enumerated grid over all 10 2-D Whittaker methods x layouts (incl. weights=None), and rotated through the integer correspondences and the random oracle; distinct = distinct canonical input; non-trivial as flagged per case kind')
     ctx.trusted += [
         'scipy.linalg.eig_banded / eigh_tridiagonal: contract (smallest eigen-pairs of D\'D, orthonormal columns, null eigenvalues ~0) '
         'sampled against numpy.linalg.eigvalsh and dense D\'D; scipy.linalg.solve / spsolve / numpy matmul: not verified',
@@ -885,11 +998,12 @@ def run(ctx):
     stage('corr_axes', corr_axes)
     stage('eigen_contract', eigen_contract)
     budget = 1 if (ok and not ctx.broken) else 3
+    w4 = stage('oracle_layouts', oracle_layouts, budget)      # fixed enumerated grid first
     w1 = stage('oracle_whittaker', oracle_whittaker, budget)
     stage('oracle_pspline', oracle_pspline, budget)
     w3 = stage('oracle_long', oracle_long, budget)
     w2 = stage('oracle_axes', oracle_axes, budget)
-    ctx.note(f'direct oracle budget x{budget}: largest error/tolerance ratio on Whittaker cases {w1:.2e} (long-axis grids {w3:.2e}), largest relative individual_axes '
+    ctx.note(f'direct oracle budget x{budget}: largest error/tolerance ratio on Whittaker cases {w1:.2e} (long-axis grids {w3:.2e}, memory-layout grid {w4:.2e}), largest relative individual_axes '
              f'difference {w2:.2e}; not covered: grids other than <=15x15 and the one-long-axis grids 130x6/80x7/450x6/200x5 (and transposes) in the float oracle, iteration beyond the first solve '
              f'(max_iter=0 on purpose), update_penalty with inexact lam ratios, pspline methods other than pspline_asls, '
              f'rhs_extra / user-supplied penalty arguments of solve')
@@ -905,9 +1019,17 @@ def replay(rep):
         bad = bool(msg) or not err <= 1e-8
         print('replay individual_axes:', f'differs from the explicit 1-D loops by {err:.3e}' if bad else 'property holds on this input')
         return 1 if bad else 0
+    if kind == 'layout':
+        err, tol, what = check_layout(case)
+        bad = not err <= tol
+        print(f'replay layout {case["method"]}: {what or "all comparisons"}: difference {err:.3e} (tolerance {tol:.1e})'
+              if bad else 'replay layout: property holds on this input')
+        return 1 if bad else 0
     if kind == 'whittaker':
         from pybaselines import Baseline2D
         y, w = np.array(case['y']), np.array(case['weights'])
+        if 'layout_y' in case:
+            y, w = relayout(y, case['layout_y']), relayout(w, case['layout_w'])
         M, N, d, lam, method = case['M'], case['N'], tuple(case['diff_order']), tuple(case['lam']), case['method']
         b = Baseline2D(np.arange(M, dtype=float), np.arange(N, dtype=float))
         eps = np.finfo(float).eps
